@@ -606,3 +606,7 @@ impl StepEnv {
         py_data
     }
 }
+
+#[cfg(any(kani, verif_replay))]
+#[path = "/verif/harness/py_step_sim_proofs.rs"]
+pub(crate) mod verif_proofs;
